@@ -83,7 +83,7 @@ for _p in ("C01", "C02", "C03", "C04", "C05", "C06", "C07"):
 for _p in ("C04", "C05"):
     PROPS[_p]["domains"] = PROPS[_p]["domains"] + [{"name": "hlp", "n_quick": 600, "n_thorough": 15000}]
 PROPS["C05"]["lean_modules"] = ["SMD.Properties.C05", "SMD.Properties.C04Exact"]
-PROPS["C19"]["lean_modules"] = ["SMD.Properties.C19", "SMD.Properties.FindingWitnesses"]
+PROPS["C19"]["lean_modules"] = ["SMD.Properties.C19", "SMD.Properties.FindingWitnesses", "SMD.Properties.C05Exact"]
 for _p in ("C11", "C12", "C13", "C14"):
     PROPS[_p]["domains"] = PROPS[_p]["domains"] + [{"name": "typx", "n_quick": 20000, "n_thorough": 250000}]
 PROPS["C13"]["domains"].append({"name": "sch", "n_quick": 150, "n_thorough": 3000})
